@@ -29,14 +29,15 @@ def _fz(sub, q, t, qlen=400, tlen=2000):
 # thorough ~= 8-10 min per process on a 16-core box.
 PROP = {
     "subchecks": [
-        _rc("base64", 24000, 500000), _fz("base64", 130000, 5000000),
-        _rc("hex", 18000, 400000), _fz("hex", 110000, 4000000),
-        _rc("scalable_int", 6000, 150000), _fz("scalable_int", 100000, 4000000),
-        _rc("serializer", 9000, 200000), _fz("serializer", 150000, 6000000),
-        _rc("url", 20000, 450000), _fz("url", 160000, 6000000),
-        _rc("crc_checksum", 30000, 700000), _fz("crc_checksum", 12000, 500000),
-        _rc("md5", 12000, 280000), _fz("md5", 32000, 1300000),
-        _rc("aes", 3000, 70000), _fz("aes", 25000, 1000000),
+        # rc case counts: ~12-15 CPU-s (quick) / ~8 CPU-min (thorough) per process, measured with _ENV on this box
+        _rc("base64", 70000, 2200000), _fz("base64", 130000, 5000000),
+        _rc("hex", 60000, 2000000), _fz("hex", 110000, 4000000),
+        _rc("scalable_int", 14000, 500000, tsize=100), _fz("scalable_int", 100000, 4000000),
+        _rc("serializer", 32000, 1200000, tsize=100), _fz("serializer", 150000, 6000000),
+        _rc("url", 70000, 1900000), _fz("url", 160000, 6000000),
+        _rc("crc_checksum", 60000, 2000000), _fz("crc_checksum", 12000, 500000),
+        _rc("md5", 26000, 950000, tsize=100), _fz("md5", 32000, 1300000),
+        _rc("aes", 3600, 130000, tsize=100), _fz("aes", 25000, 1000000),
         # messages of >= 2^29 bytes: ~10 s per case (the reference hashes 512 MiB once, the code under test twice, under ASan)
         {"target": "c19_codecs_rc", "sub": "md5_long", "replay_alarm": 900, "env": _ENV,
          "quick": {"cases": 2, "max_size": 10, "workers": 1},
